@@ -603,11 +603,42 @@ def r46(ctx, fx):
                     "build without a diagnostic", "%s:%s" % (ads.file, conds[0].get("ln")))
 
 
+def r47(ctx, fx):
+    rid = ctx.rule("R4.7", "an out-of-range branch is reported where it stands (regression guard): the path of emit_token that rejects a branch distance still emits the "
+                   "instruction (CodegenContext::emit before the `return Err`). If it emitted nothing, whatever follows would sit two bytes closer in that pass, a "
+                   "forward branch that is just out of range would be in range in every other pass, and the build would end with `unknown identifier` at the "
+                   "target label instead of `branch too far` at the branch")
+    et = fx.fn("mos_core::codegen::CodegenContext::emit_token")
+    if et is None or not et.d.get("hir"):
+        ctx.fail_closed(rid, "CodegenContext::emit_token not found")
+        return
+    arms = [a for n in lib.hwalk(et.hir["body"]) if n.get("k") == "match" and (lib.strip(n["scrut"]).get("ty") or "").endswith("Mnemonic")
+            for a in n["arms"] if a["pat"].get("k") == "or"]
+    if len(arms) != 1:
+        ctx.fail_closed(rid, "expected one or-pattern arm over Mnemonic in emit_token, found %d" % len(arms))
+        return
+    ifs = [x for x in lib.hwalk(arms[0]["body"]) if x.get("k") == "if" and "else" in x and
+           any(True for _ in lib.hir_calls(x["cond"], "RangeInclusive::<Idx>::contains")) or
+           (x.get("k") == "if" and "else" in x and any(c.get("k") == "mcall" and c.get("name") == "contains" for c in lib.hwalk(x["cond"])))]
+    key = "emit_token|branch-out-of-range|keeps-its-bytes"
+    if len(ifs) != 1:
+        ctx.fail_closed(rid, "the range test of the branch distance was not found (%d candidates)" % len(ifs))
+        return
+    rejecting = ifs[0]["else"]
+    has_ret = any(n.get("k") == "ret" for n in lib.hwalk(rejecting))
+    emits = [x for x, _ in lib.hir_calls(rejecting, "CodegenContext::emit")]
+    ctx.inst(rid, key, sample={"rejecting_path_returns": has_ret, "emit_calls_on_it": len(emits)})
+    if has_ret and not emits:
+        ctx.finding(rid, key, "the path that rejects an out-of-range branch emits nothing: the layout of that pass is two bytes short behind the branch, so a forward "
+                    "branch that is barely too far alternates between in and out of range and is never reported at the branch", "%s:%s" % (et.file, ifs[0].get("ln")))
+
+
 def run(ctx):
     fx = ctx.facts
     cg = lib.CallGraph(fx)
     r45(ctx, fx)
     r46(ctx, fx)
+    r47(ctx, fx)
     r41(ctx, fx, cg)
     r42(ctx, fx)
     r43(ctx, fx)
